@@ -143,17 +143,22 @@ func checkC10(p *Program, r *Reporter) {
 		}
 	}
 	var mpdSite, initSite ssa.CallInstruction
+	addEnc := p.lookupFunc(pkgApp, "(*RepData).addEncryption")
 	for _, s := range callsTo(p, kfs) {
-		switch shortFn(s.Parent()) {
-		case "app.LiveMPD":
+		switch {
+		case inCluster(live, s.Parent()):
 			mpdSite = s
-		case "(*app.RepData).addEncryption":
+		case addEnc != nil && inCluster(addEnc, s.Parent()):
 			initSite = s
 		}
 	}
 	// DefaultKID stores in the ClearKey branch come from kidFromString
 	nKID := 0
-	for _, b := range live.Blocks {
+	var liveBlocks []*ssa.BasicBlock
+	for _, cf := range cluster(live) {
+		liveBlocks = append(liveBlocks, cf.Blocks...)
+	}
+	for _, b := range liveBlocks {
 		for _, in := range b.Instrs {
 			st, ok := in.(*ssa.Store)
 			if !ok {
@@ -192,8 +197,16 @@ func checkC10(p *Program, r *Reporter) {
 	} else {
 		want := map[string]string{"app.LiveMPD": "mpd.AdaptationSetType.ContentType", "app.matchInit": "app.RepData.ContentType", "app.encryptFrags": "app.RepData.ContentType"}
 		seen := map[string]bool{}
+		roleOf := func(fn *ssa.Function) string {
+			for role := range want {
+				if anchor := p.lookupFunc(pkgApp, strings.TrimPrefix(role, "app.")); anchor != nil && inCluster(anchor, fn) {
+					return role
+				}
+			}
+			return shortFn(fn)
+		}
 		for _, s := range callsTo(p, gck) {
-			fn := shortFn(s.Parent())
+			fn := roleOf(s.Parent())
 			if sideOfPkg(calleePkgPath(s.Parent())) == "recv" {
 				continue
 			}
@@ -266,7 +279,7 @@ func checkC10(p *Program, r *Reporter) {
 	}
 	encryptsFreshMemory(p, r)
 	// ContentProtection appends in LiveMPD are dominated by !PreEncrypted
-	for _, b := range live.Blocks {
+	for _, b := range liveBlocks {
 		for _, in := range b.Instrs {
 			st, ok := in.(*ssa.Store)
 			if !ok {
@@ -276,7 +289,7 @@ func checkC10(p *Program, r *Reporter) {
 				continue
 			}
 			okGuard := false
-			for _, cd := range condsAt(st) {
+			for _, cd := range effectiveDomConds(st.Block()) {
 				if f, ok := loadedField(cd.V); ok && f == "app.RepData.PreEncrypted" && !cd.Pos {
 					okGuard = true
 				}
